@@ -141,6 +141,7 @@ type c13Chain struct {
 	W     *chain.World
 	Sufs  []c13Suf                   // by suffrage height
 	Truth map[string]map[string]bool // states-tree root -> keys (real and forged trees whose pre-image is known)
+	Empty []base.BlockMap            // genuine signed maps of the chain's blocks without a states tree (no new state at all)
 	Desc  string
 }
 
@@ -206,10 +207,27 @@ func c13Build(rt *rapid.T) *c13Chain {
 		desc = append(desc, fmt.Sprintf("%s%d", label, len(ops)))
 	}
 
-	for _, evn := range events {
-		if rapid.Bool().Draw(rt, "gap") {
-			block("f", nil)
+	// a block without any operation: no new state, so its manifest has no states tree
+	empty := func() {
+		if _, err := w.NextBlock(nil, nil, chain.ProcOpts{}); err != nil {
+			w.Close()
+			rt.Fatalf("empty block: %+v", err)
 		}
+
+		desc = append(desc, "e")
+	}
+
+	gap := func(label string) {
+		switch rapid.SampledFrom([]string{"none", "filler", "empty", "empty"}).Draw(rt, label) {
+		case "filler":
+			block("f", nil)
+		case "empty":
+			empty()
+		}
+	}
+
+	for _, evn := range events {
+		gap("gap")
 
 		members := w.Members()
 
@@ -250,9 +268,7 @@ func c13Build(rt *rapid.T) *c13Chain {
 			candHeight := w.NextHeight()
 			block("c", []base.Operation{chain.CandidateOp(fmt.Sprintf("c13-cand-%d", candHeight), cand, cand)})
 
-			if rapid.Bool().Draw(rt, "gap2") {
-				block("f", nil)
-			}
+			gap("gap2")
 
 			block("j", []base.Operation{chain.JoinOp(fmt.Sprintf("c13-join-%d", w.NextHeight()), cand.Address(), candHeight+1,
 				append([]base.LocalNode{cand}, members...))})
@@ -264,11 +280,33 @@ func c13Build(rt *rapid.T) *c13Chain {
 		}
 	}
 
-	if rapid.Bool().Draw(rt, "tail") {
-		block("f", nil)
-	}
+	gap("tail")
 
 	c.Desc = strings.Join(desc, ",")
+
+	// the genuine blocks that commit to no state: no states tree in the signed manifest and no state in the block files
+	for _, m := range w.Maps {
+		if m.Manifest().StatesTree() != nil {
+			continue
+		}
+
+		h := m.Manifest().Height()
+
+		if _, has := m.Item(base.BlockItemStates); has {
+			sts, err := w.BlockStates(h)
+			if err != nil || len(sts) > 0 {
+				w.Close()
+				rt.Fatalf("harness: block %d has no states tree in its manifest but %d states in its files (%v)", h, len(sts), err)
+			}
+		}
+
+		if _, has := m.Item(base.BlockItemStatesTree); has {
+			w.Close()
+			rt.Fatalf("harness: block %d has no states tree in its manifest but a states tree item", h)
+		}
+
+		c.Empty = append(c.Empty, m)
+	}
 
 	// collect the real proofs and the ground truth of every real states tree
 	for sh := base.GenesisHeight; ; sh++ {
@@ -405,18 +443,50 @@ func c13ForgedMap(real base.Manifest, statesTree util.Hash, label string) (base.
 	return m, nil
 }
 
+// c13MapWithoutStatesTree: a block map signed by the attacker around the real manifest with the states tree taken out (and,
+// when emptyBlock is set, the operations tree too: the shape of a block without operations). Items as the block writer sets
+// them for such a block; BlockMap.IsValid passes.
+func c13MapWithoutStatesTree(real base.Manifest, emptyBlock bool, label string) (base.BlockMap, error) {
+	opsTree := real.OperationsTree()
+	if emptyBlock {
+		opsTree = nil
+	}
+
+	m := isaacblock.NewBlockMap()
+	m.SetManifest(isaac.NewManifest(real.Height(), real.Previous(), real.Proposal(), opsTree, nil, real.Suffrage(), real.ProposedAt()))
+
+	types := []base.BlockItemType{base.BlockItemProposal, base.BlockItemVoteproofs}
+	if opsTree != nil {
+		types = append(types, base.BlockItemOperations, base.BlockItemOperationsTree)
+	}
+
+	for _, t := range types {
+		if err := m.SetItem(isaacblock.NewBlockMapItem(t, gen.H("c13-checksum-"+label+t.String()).String())); err != nil {
+			return nil, err
+		}
+	}
+
+	attacker := gen.Local(40)
+	if err := m.Sign(attacker.Address(), attacker.Privatekey(), gen.NetworkID); err != nil {
+		return nil, err
+	}
+
+	return m, nil
+}
+
 type c13Forgery struct {
 	Kind   string
 	Target int // suffrage height
 	Proof  base.SuffrageProof
 	Prev   base.State
 	Detail string
+	Sub    string // sub-class for the coverage histogram
 }
 
 var c13Kinds = []string{
 	"valid", "fake-state-own-tree", "real-state-own-tree", "fake-state-real-path", "foreign-block-proof", "rekey-node", "rekey-node",
 	"grafted-root", "appended-root", "wrong-previous", "forged-block-height-gap", "forged-block-previous-hash", "forged-block-previous-not-older",
-	"forged-block-consistent", "genesis-with-previous",
+	"forged-block-consistent", "genesis-with-previous", "map-without-states-tree", "map-without-states-tree",
 }
 
 func c13Forge(rt *rapid.T, c *c13Chain, idx int) (f c13Forgery) {
@@ -427,6 +497,10 @@ func c13Forge(rt *rapid.T, c *c13Chain, idx int) (f c13Forgery) {
 		f.Target = 0
 	} else if f.Kind != "valid" && f.Kind != "fake-state-own-tree" && f.Kind != "real-state-own-tree" && f.Kind != "rekey-node" && f.Target == 0 {
 		f.Target = rapid.IntRange(1, len(c.Sufs)-1).Draw(rt, "target1")
+	}
+
+	if f.Kind == "map-without-states-tree" && rapid.Bool().Draw(rt, "targetLast") {
+		f.Target = len(c.Sufs) - 1 // nothing follows the last proof, so the history builder has only Prove to stop it
 	}
 
 	real := c.Sufs[f.Target]
@@ -581,6 +655,66 @@ func c13Forge(rt *rapid.T, c *c13Chain, idx int) (f c13Forgery) {
 
 		f.Proof = isaacblock.NewSuffrageProof(m, st, p)
 		f.Detail += fmt.Sprintf(" sufheight=%d", sufHeight)
+	case "map-without-states-tree":
+		// a signed block map whose manifest has no states tree (a block without any new state commits to no state), carrying
+		// a suffrage state that correctly follows the real previous suffrage state. The map is the genuine one of an empty
+		// block of the chain above the previous suffrage block (the forger needs no key for that), or the attacker's own
+		// signature around the real manifest with the states tree taken out.
+		var empties []base.BlockMap
+
+		for _, m := range c.Empty {
+			if m.Manifest().Height() > realPrev.Height() {
+				empties = append(empties, m)
+			}
+		}
+
+		sources := []string{"resigned-no-states-tree", "resigned-empty-block"}
+		if len(empties) > 0 {
+			sources = append(sources, "real-empty-block", "real-empty-block", "real-empty-block")
+		}
+
+		source := rapid.SampledFrom(sources).Draw(rt, "mapSource")
+
+		var m base.BlockMap
+
+		switch source {
+		case "real-empty-block":
+			m = empties[rapid.IntRange(0, len(empties)-1).Draw(rt, "emptyBlock")]
+		default:
+			var err error
+
+			m, err = c13MapWithoutStatesTree(real.Map.Manifest(), source == "resigned-empty-block", label)
+			must(err)
+		}
+
+		if m.Manifest().StatesTree() != nil {
+			rt.Fatalf("harness: the %s map of block %d has a states tree", source, m.Manifest().Height())
+		}
+
+		mh := m.Manifest().Height()
+		f.Detail += fmt.Sprintf(" map=%s@%d", source, mh)
+		f.Sub = "map-without-states-tree:" + source
+
+		payloads := []string{"fake-state-own-tree", "fake-state-own-tree"}
+		if mh == h {
+			payloads = append(payloads, "real-state-real-path", "real-state-own-tree")
+		}
+
+		switch payload := rapid.SampledFrom(payloads).Draw(rt, "payload"); payload {
+		case "real-state-real-path":
+			// the genuine state and path of this height; only the block that is claimed to commit to it has no tree
+			f.Proof = isaacblock.NewSuffrageProof(m, real.State, real.Proof.Proof())
+			f.Detail += " " + payload
+		case "real-state-own-tree":
+			_, p := ownTree(real.State.Hash().String())
+			f.Proof = isaacblock.NewSuffrageProof(m, real.State, p)
+			f.Detail += " " + payload
+		default:
+			st := c13FakeState(mh, base.Height(f.Target), prevHash, label, nFake)
+			_, p := ownTree(st.Hash().String())
+			f.Proof = isaacblock.NewSuffrageProof(m, st, p)
+			f.Detail += " " + payload
+		}
 	case "genesis-with-previous":
 		f.Proof = real.Proof
 		f.Prev = c.Sufs[rapid.IntRange(0, len(c.Sufs)-1).Draw(rt, "gprev")].State
@@ -617,15 +751,16 @@ func c13Wire(p base.SuffrageProof) (base.SuffrageProof, error) {
 func TestC13(t *testing.T) {
 	r := ev.Start(t, "C13")
 	defer r.Finish()
-	r.Rule("chains from the production path: 1..3 genesis nodes, 1..3 suffrage events (candidate+join / disjoin) with optional gap blocks and 0..11 filler states per block, " +
+	r.Rule("chains from the production path: 1..3 genesis nodes, 1..3 suffrage events (candidate+join / disjoin) with optional gap blocks (filler or empty: no operation, no states tree) and 0..11 filler states per block, " +
 		"so suffrage states sit in trees of 1..14 states; 20 proofs per chain: the real proofs from the database and forgeries {attacker state in an own self-consistent tree under the real signed map, " +
 		"real state with a foreign path, attacker state on the real path, proof of another block, one proof node renamed to the attacker's state hash, own tree with the real root hash grafted on or appended as an extra node, " +
-		"wrong/fabricated previous state, fully attacker-made blocks (own manifest+tree+signature) whose state skips a suffrage height / names another previous / has a previous that is not older / is consistent, genesis with a previous}; " +
+		"wrong/fabricated previous state, fully attacker-made blocks (own manifest+tree+signature) whose state skips a suffrage height / names another previous / has a previous that is not older / is consistent, genesis with a previous, " +
+		"a signed map WITHOUT a states tree (the genuine map of an empty block of the chain above the previous suffrage block, or the real manifest re-signed with the states tree / both trees taken out) carrying an attacker state in an own tree that correctly follows the real previous state, or the real state with its real / a foreign path}; " +
 		"every proof also goes through the JSON encoder. accepted := IsValid(networkID)==nil && Prove(previous)==nil. " +
 		"non-trivial: a forged proof that passes IsValid (so only Prove decides); distinct by (chain, kind, target, parameters)")
 	r.Floor(int64(r.N(150, 1500)))
 	r.Assume("oracle: accepted => the state's hash is a key of the tree whose root is the carried manifest's states-tree root (pre-images known to the harness: real trees read from block files, forged trees built by the harness; SHA3-256 assumed collision resistant) "+
-		"and an independent strict path verifier leads from the state's key to that root, and (unless genesis) previous.hash == state.previous, suffrage height == previous+1, previous block height < state block height",
+		"(a block whose manifest has no states tree commits to no state) and an independent strict path verifier leads from the state's key to that root, and (unless genesis) previous.hash == state.previous, suffrage height == previous+1, previous block height < state block height",
 		"one-sided: rejecting is never a violation, except that an untampered proof with its true previous state must be accepted for the run to count (otherwise inconclusive)",
 		"a panic on a nil previous state at a non-genesis height counts as rejected here (crash-freedom of the sync path is C18)")
 
@@ -724,7 +859,11 @@ func c13Judge(rt *rapid.T, r *ev.Rec, c *c13Chain, f c13Forgery) {
 			sig := "proved-key-not-hashed-into-path"
 			what := "the path reaches the block's root but the state's hash is not what is hashed into it"
 
-			if last == nil || root == nil || !last.Hash().Equal(root) {
+			switch {
+			case root == nil:
+				sig = "proved-under-block-without-states-tree"
+				what = fmt.Sprintf("the manifest of the carried block (height %d) has no states tree, so the block commits to no state", m.Height())
+			case last == nil || !last.Hash().Equal(root):
 				sig = "proof-root-not-bound-to-manifest"
 				what = fmt.Sprintf("the proof's root %s is not the states-tree root %s of the block it carries", last.Hash(), root)
 			}
@@ -766,6 +905,10 @@ func c13Judge(rt *rapid.T, r *ev.Rec, c *c13Chain, f c13Forgery) {
 
 	if f.Target == 0 {
 		classes = append(classes, "target:genesis")
+	}
+
+	if f.Sub != "" {
+		classes = append(classes, f.Sub)
 	}
 
 	r.Case(fmt.Sprintf("%s|%s|%d|%s", c.Desc, f.Kind, f.Target, f.Detail), nontrivial, classes...)
